@@ -51,6 +51,7 @@ type Interp struct {
 	frozen         map[*Value]bool
 	frozenMap      map[*Map]bool
 	lastPanicStack string
+	inErrorf       int
 
 	// accumulated over all paths of this worker
 	stats     *Stats
@@ -524,6 +525,7 @@ func (in *Interp) RunPath(entry *ssa.Function, prefix []int) (res PathResult) {
 	in.frozen = nil
 	in.frozenMap = nil
 	in.lastPanicStack = ""
+	in.inErrorf = 0
 	if in.ctx.NumTerms() > 400000 {
 		in.ctx = smt.NewCtx()
 	}
